@@ -50,7 +50,7 @@ def witness_cases(report: Report) -> List[dict]:
 
 def drive(report: Report, modname: str, cases: Iterable[dict], *, opts: Optional[dict] = None, batch_size: int = 48,
           bad: Sequence[str] = BAD_OUTCOMES_DEFAULT, judge: str = "judge", sample_every: int = 997,
-          include_witnesses: bool = True, state_of=None) -> None:
+          include_witnesses: bool = True, state_of=None, on_record=None) -> None:
     """Run program cases through the pipeline and fold the results into ``report``."""
     opts = dict(opts or {})
     opts.setdefault("judge", judge)
@@ -69,6 +69,8 @@ def drive(report: Report, modname: str, cases: Iterable[dict], *, opts: Optional
             report.distinct.add(rec["cpp_sha"])
             if outcome in ("match", "violation"):
                 report.traces_validated += 1
+        if on_record is not None:
+            on_record(rec)
         if DEBUG and outcome not in ("match", "reject"):
             print("DEBUG", rec.get("id"), outcome, (rec.get("detail") or "")[:700])
         if outcome == "harness_error":
